@@ -41,9 +41,12 @@ def replay(ctx, rep):
     if case.get('scenario') == 'metaclash':
         # the history of a class-graph case is self-contained: it is replayed literally (every access-path pair);
         # generator cases are also re-generated from their seed
-        if metaclash_script(case):
+        if metaclash_script(case, (rep.get('signature') or {}).get('linearisations')):
             return 1
-        return common.scenario_replay(ctx, rep, {'metaclash': meta_clash_scenarios}) if 'seed' in case else 0
+        if 'seed' in case:
+            return common.scenario_replay(ctx, rep, {'metaclash': meta_clash_scenarios})
+        print('not reproduced')
+        return 0
     if case.get('scenario'):
         return common.scenario_replay(ctx, rep, {'subtrees': subtree_scenarios})
     r = krun.Run(case, ['C19']).run()
@@ -256,7 +259,7 @@ def subtree_scenarios(ctx, out):
     common.use_repo()
     from pyecore import ecore as E
     rng = common.rng_for(ctx.seed, 'C19:subtrees')
-    n = 140 if ctx.tier != 'thorough' else 4000
+    n = 400 if ctx.tier != 'thorough' else 6000
     st = {'models': 0, 'mutations': 0, 'views': 0, 'subtype_slot_views': 0, 'eobject_slot_views': 0,
           'max_depth': 0, 'raised': 0, 'feature_added_at_run_time': 0}
     sample = None
@@ -553,7 +556,7 @@ def meta_clash_scenarios(ctx, out):
     from pyecore import ecore as E
     rng = common.rng_for(ctx.seed, 'C19:metaclash')
     model = common.Model() if os.path.exists(os.path.join(common.BUILD, 'modelrun')) else None
-    n = 110 if ctx.tier != 'thorough' else 2500
+    n = 260 if ctx.tier != 'thorough' else 5000
     st = {'graphs': 0, 'edits': 0, 'queries': 0, 'clash_lookups': 0, 'clash_lookups_across_branches': 0,
           'probes': 0, 'lin_differ': 0, 'model_compared': 0}
     sample = None
@@ -723,8 +726,7 @@ def meta_clash_scenarios(ctx, out):
                         out.fail({'property': 'C19', 'clause': 'meta-find-vs-eAllStructuralFeatures', 'scenario': 'metaclash'},
                                  f'K{c}.findEStructuralFeature({nm!r}) is K{decl[got]}.{nm} but the first {nm!r} of '
                                  f'eAllStructuralFeatures() is K{decl[first]}.{nm} (super types {sup}) after {hist[-1]}', case)
-                        state['ok'] = False
-                        return
+                        state['ok'] = False      # (the probe below is still made for this name; then the graph is left)
                     # (ii) ... and with the declaration that attribute syntax / eGet / eSet by name use
                     by_dfs = next(f for d in _dfs(sup, c) for (f, _, n2) in own[d] if n2 == nm)
                     by_c3 = next(f for d in mro[c] for (f, _, n2) in own[d] if n2 == nm)
@@ -739,7 +741,8 @@ def meta_clash_scenarios(ctx, out):
                                  f'super types {sup}; depth-first and C3 order {lin}) after {hist[-1]}', case)
                         if lin == 'agree':
                             state['ok'] = False
-                            return
+                    if not state['ok']:
+                        return
 
         # initial graph: often two super types
         for i in range(ncls):
@@ -795,9 +798,11 @@ def meta_clash_scenarios(ctx, out):
     out.coverage['metaclash_sample'] = sample
 
 
-def metaclash_script(case):
+def metaclash_script(case, only_lin=None):
     """literal replay of a class-graph history ([add-super c d] [remove-super c d how] [add-feature c name kind target]
-    [remove-feature c name]); prints what the views answer at the end; True if they disagree"""
+    [remove-feature c name]); prints what the views answer at the end; True if they disagree.  `only_lin`: count a
+    disagreement with attribute syntax only on lookups where C3 and depth-first order 'agree' / 'differ' (the latter
+    is the known finding F-C19-find-vs-mro); default: 'agree' lookups, plus 'differ' ones if the case asks for them"""
     from harness import common
     common.use_repo()
     from pyecore import ecore as E
@@ -806,11 +811,14 @@ def metaclash_script(case):
         1 + max([max(h[1], h[2]) for h in hist if h[0].endswith('super')] + [h[1] for h in hist] + [h[4] for h in hist if h[0] == 'add-feature'])
     classes = [E.EClass(f'K{i}') for i in range(ncls)]
     own = {i: {} for i in range(ncls)}
+    sup = {i: [] for i in range(ncls)}
     for h in hist:
         if h[0] == 'add-super':
             classes[h[1]].eSuperTypes.append(classes[h[2]])
+            sup[h[1]].append(h[2])
         elif h[0] == 'remove-super':
             classes[h[1]].eSuperTypes.remove(classes[h[2]])
+            sup[h[1]].remove(h[2])
         elif h[0] == 'add-feature':
             _, c, name, k, t = h
             f = (E.EAttribute(name, E.EString) if k == 'str' else E.EAttribute(name, E.EInt) if k == 'int' else
@@ -822,6 +830,7 @@ def metaclash_script(case):
         print(h)
     where = {id(f): (c, k, t) for c in own for (f, k, t) in own[c].values()}
     bad = 0
+    mro = _plain_mro(sup, ncls)
     for c in ([case['class']] if 'class' in case else range(ncls)):
         ec = classes[c]
         allf = list(ec.eAllStructuralFeatures())
@@ -830,6 +839,9 @@ def metaclash_script(case):
             first = next(f for f in allf if f.name == nm)
             d, k, t = where[id(found)]
             line = f'K{c}: findEStructuralFeature({nm!r}) = K{d}.{nm} ({k}); first in eAllStructuralFeatures(): K{where[id(first)][0]}.{nm}'
+            lin = 'agree' if next(d for d in _dfs(sup, c) if nm in own[d]) == next(d for d in mro[c] if nm in own[d]) else 'differ'
+            counts = lin == (only_lin or 'agree')
+            line += f'; C3 and depth-first order {lin}'
             if found is not first:
                 bad += 1
                 line += '  <-- DISAGREE'
@@ -852,8 +864,8 @@ def metaclash_script(case):
                     except Exception as e:  # noqa
                         res = f'raised {type(e).__name__}'
                     if res:
-                        bad += 1
-                        print(f'   a fresh K{c}: storing {v!r} (a value of the found feature) through {wpath}: {res}  <-- DISAGREE')
+                        bad += counts
+                        print(f'   a fresh K{c}: storing {v!r} (a value of the found feature) through {wpath}: {res}  <-- DISAGREE' + ('' if counts else ' (not counted)'))
     if bad:
         print('REPRODUCED: findEStructuralFeature disagrees with the other views')
     return bad > 0
